@@ -524,14 +524,11 @@ fn classify(a: &[Arg]) -> Shape {
         b"DEL" | b"EXISTS" => if arg(a, 2).is_some() { Shape::Guarded(somes(a, 1, a.len())) } else { Shape::Single(1) },
         b"MSET" | b"MSETNX" => Shape::Guarded((0..a.len() / 2).filter_map(|i| arg(a, 2 * i + 1).cloned()).collect()),
         b"BLPOP" | b"BRPOP" | b"BZPOPMIN" | b"BZPOPMAX" | b"BRPOPLPUSH" => Shape::Guarded(somes(a, 1, a.len().saturating_sub(1))),
-        b"EVAL" => match numkeys(a) {
+        // EVALSHA shares EVAL's arm of handle_data_cmd since /repo 7ad1e99 (finding F09a, fixed)
+        b"EVAL" | b"EVALSHA" => match numkeys(a) {
             Some(1) => Shape::Single(3),
             Some(n) if n <= 64 => Shape::Guarded(somes(a, 3, 3 + n)),
             _ => Shape::Other,
-        },
-        b"EVALSHA" => match numkeys(a) {
-            Some(n) if (2..=64).contains(&n) => Shape::Unguarded(somes(a, 3, 3 + n), "F09a"),
-            _ => Shape::Single(3),
         },
         b"RENAME" | b"RENAMENX" | b"SMOVE" | b"RPOPLPUSH" => match (arg(a, 1), arg(a, 2)) {
             (Some(x), Some(y)) => Shape::Unguarded(vec![x.clone(), y.clone()], "F09b"),
@@ -571,8 +568,8 @@ fn oracle(w: &World, a: &[Arg], reply: &Result<RespVec, String>, ds: &[Delivery]
     let distinct = |ks: &[Vec<u8>]| ks.iter().map(|k| ref_slot(k)).collect::<BTreeSet<_>>().len();
     // (1) nothing is ever executed on a node that does not own the slot of every key it touches.
     // A delivered two-key command whose keys live in different slots can only be the product of the
-    // two known gaps (F09a: EVALSHA, F09b: RENAME/RENAMENX/SMOVE/RPOPLPUSH incl. the RPOPLPUSH that
-    // BRPOPLPUSH is rewritten to under active redirection); anything else is unexplained.
+    // known gap F09b (RENAME/RENAMENX/SMOVE/RPOPLPUSH incl. the RPOPLPUSH that BRPOPLPUSH is rewritten
+    // to under active redirection); anything else is unexplained.
     let mut wrong_node = false;
     let mut wrong_known: Vec<&'static str> = vec![];
     for (addr, c) in ds {
@@ -594,11 +591,7 @@ fn oracle(w: &World, a: &[Arg], reply: &Result<RespVec, String>, ds: &[Delivery]
         }
     }
     for f in wrong_known.iter() {
-        let what = if *f == "F09a" {
-            "EVALSHA with keys in different slots is not refused: executed on the owner of the first key only"
-        } else {
-            "two-key command (RENAME/RENAMENX/SMOVE/RPOPLPUSH, BRPOPLPUSH under active redirection) with keys in different slots is executed on the owner of the first key"
-        };
+        let what = "two-key command (RENAME/RENAMENX/SMOVE/RPOPLPUSH, BRPOPLPUSH under active redirection) with keys in different slots is executed on the owner of the first key";
         bad.push((what.into(), *f));
     }
     match &shape {
@@ -635,7 +628,7 @@ fn oracle(w: &World, a: &[Arg], reply: &Result<RespVec, String>, ds: &[Delivery]
             }
         }
         Shape::Guarded(ks) => {
-            let is_eval = arg(a, 0).map(|n| upper(n)) == Some(b"EVAL".to_vec());
+            let is_eval = matches!(arg(a, 0).map(|n| upper(n)).as_deref(), Some(b"EVAL") | Some(b"EVALSHA"));
             if distinct(ks) >= 2 && (!ar || is_eval) {
                 if is_error(reply).is_none() || !ds.is_empty() {
                     bad.push(("cross-slot multi-key command was not refused / was partially executed".into(), ""));
@@ -648,11 +641,7 @@ fn oracle(w: &World, a: &[Arg], reply: &Result<RespVec, String>, ds: &[Delivery]
             if distinct(ks) >= 2 && !ar && installed && wrong_known.is_empty() {
                 if is_error(reply).is_none() || !ds.is_empty() {
                     // not refused although nothing ran on a wrong node (both slots on the same node)
-                    let what = if *finding == "F09a" {
-                        "EVALSHA with keys in different slots is not refused (both slots happen to live on the executing node)"
-                    } else {
-                        "two-key command (RENAME/RENAMENX/SMOVE/RPOPLPUSH) with keys in different slots is not refused (both slots happen to live on the executing node)"
-                    };
+                    let what = "two-key command (RENAME/RENAMENX/SMOVE/RPOPLPUSH) with keys in different slots is not refused (both slots happen to live on the executing node)";
                     bad.push((what.into(), *finding));
                 }
             }
@@ -680,7 +669,7 @@ struct Run {
 
 fn canon_reply(a: &[Arg], r: &Result<RespVec, String>) -> String {
     match r {
-        Ok(Resp::Error(e)) if e.starts_with(b"ERR: Invalid `numkeys`") && arg(a, 0).map(|n| upper(n)) == Some(b"EVAL".to_vec()) => {
+        Ok(Resp::Error(e)) if e.starts_with(b"ERR: Invalid `numkeys`") && matches!(arg(a, 0).map(|n| upper(n)).as_deref(), Some(b"EVAL") | Some(b"EVALSHA")) => {
             format!("E:{}", hex(b"ERR: Invalid `numkeys`"))
         }
         Ok(resp) => render_resp(resp),
